@@ -457,6 +457,12 @@ func c12Dims() []c12Dim {
 			func(r *c12Req) string { r.host = "evil.example"; return "host" },
 			func(r *c12Req) string { r.host = "evil.example:80"; return "host" },
 			func(r *c12Req) string { r.host = "localhost.evil.example"; return "host" },
+			// names that merely end in, start with or contain the letters "localhost" / a loopback address
+			func(r *c12Req) string { r.host = "evillocalhost"; return "host" },
+			func(r *c12Req) string { r.host = "intranet.notlocalhost:8080"; return "host" },
+			func(r *c12Req) string { r.host = "127.0.0.1.evil.example:80"; return "host" },
+			func(r *c12Req) string { r.host = "localhostx:80"; return "host" },
+			func(r *c12Req) string { r.host = "1127.0.0.1"; return "host" },
 			func(r *c12Req) string { r.host = "127.0.0.1:8080"; return "" },
 			func(r *c12Req) string { r.host = "[::1]:8080"; return "" },
 			func(r *c12Req) string { r.host, r.localAddr = "evil.example", "10.1.2.3:80"; return "" }, // not a loopback listener: any Host
